@@ -28,8 +28,22 @@
 from __future__ import annotations
 
 import dataclasses
-from dataclasses import dataclass
+from dataclasses import dataclass, field
 from typing import Optional, Dict, List, Any
+
+
+def decode_bool(value: Any) -> bool:
+  """Decodes a boolean configuration value: a JSON boolean, 0 or 1, or the strings "true" and "false"."""
+  if isinstance(value, bool):
+    return value
+
+  if isinstance(value, int) and value in (0, 1):
+    return bool(value)
+
+  if isinstance(value, str) and value.lower() in ("true", "false"):
+    return value.lower() == "true"
+
+  raise ValueError(f"Invalid boolean value '{value}'")
 
 
 class ModuleConfiguration:
@@ -87,7 +101,7 @@ class ModuleConfiguration:
 class GeneralConfiguration(ModuleConfiguration):
   """TT general configuration"""
   log_level: Optional[str] = "INFO"
-  progress_bar: Optional[bool] = True
+  progress_bar: Optional[bool] = field(default=True, metadata={"decoder": decode_bool})
   document_lang: Optional[str] = None
 
   @classmethod
